@@ -31,9 +31,26 @@ fn i4(x: i32) -> Value {
     bytes_json(&x.to_be_bytes())
 }
 
+/// IANA type code of each typed variant
+pub fn variant_code(r: &RData) -> Option<u16> {
+    Some(match r {
+        RData::A(_) => 1, RData::NS(_) => 2, RData::MD(_) => 3, RData::MF(_) => 4, RData::CNAME(_) => 5, RData::SOA(_) => 6,
+        RData::MB(_) => 7, RData::MG(_) => 8, RData::MR(_) => 9, RData::WKS(_) => 11, RData::PTR(_) => 12, RData::HINFO(_) => 13,
+        RData::MINFO(_) => 14, RData::MX(_) => 15, RData::TXT(_) => 16, RData::RP(_) => 17, RData::AFSDB(_) => 18, RData::ISDN(_) => 20,
+        RData::RouteThrough(_) => 21, RData::NSAP(_) => 22, RData::NSAP_PTR(_) => 23, RData::AAAA(_) => 28, RData::LOC(_) => 29,
+        RData::SRV(_) => 33, RData::NAPTR(_) => 35, RData::KX(_) => 36, RData::CERT(_) => 37, RData::OPT(_) => 41, RData::DS(_) => 43,
+        RData::IPSECKEY(_) => 45, RData::RRSIG(_) => 46, RData::NSEC(_) => 47, RData::DNSKEY(_) => 48, RData::DHCID(_) => 49,
+        RData::ZONEMD(_) => 63, RData::SVCB(_) => 64, RData::HTTPS(_) => 65, RData::EUI48(_) => 108, RData::EUI64(_) => 109,
+        RData::CAA(_) => 257,
+        _ => return None, // NULL(code, ..) and Empty(type) carry their code
+    })
+}
+
 /// (type code, field values in wire order) -- `None` fields for RData::Empty
 pub fn project_rdata(r: &RData) -> (u16, Value) {
-    let code: u16 = r.type_code().into();
+    // the type shown is the IANA code of the VARIANT the crate chose (written down here), not what the crate's own
+    // type_code() says about it: a type table with two entries swapped is self-consistent otherwise
+    let code: u16 = variant_code(r).unwrap_or_else(|| r.type_code().into());
     let f = match r {
         RData::A(a) => json!([b4(a.address)]),
         RData::AAAA(a) => json!([bytes_json(&a.address.to_be_bytes())]),
